@@ -152,7 +152,7 @@ def build_harness(name, defs=None, extra_srcs=()):
     if lib is None:
         return None, err
     src = os.path.join(ROOT, 'harness', name + '.cpp')
-    hh = file_hash(src, os.path.join(ROOT, 'harness', 'common.h'), *[os.path.join(ROOT, 'harness', x) for x in extra_srcs])
+    hh = file_hash(src, *sorted(glob.glob(os.path.join(ROOT, 'harness', '*.h'))))  # every shared header: a stale harness is worse than a rebuild
     exe = os.path.join(os.path.dirname(lib), '%s-%s' % (name, hh))
     with Lock('impl'):
         if os.path.exists(exe):
